@@ -32,7 +32,12 @@ pub fn layer_a_check(prop: &str, tier: &str) -> i32 {
     let specs: Vec<progen::ProgramSpec> = (0..programs)
         .map(|k| {
             let mut t = Tape::record(rng::derive(seed, "prog.micro", k as u64));
-            progen::micro_program(&mut t)
+            let mut p = progen::micro_program(&mut t);
+            if prop == "C18" {
+                // the same programs, linked at a fixed address (ET_EXEC, no relocation)
+                p.pie = false;
+            }
+            p
         })
         .collect();
     let t0 = std::time::Instant::now();
@@ -51,7 +56,7 @@ pub fn layer_a_check(prop: &str, tier: &str) -> i32 {
     let mut idx = 0u64;
     let mut params: BTreeMap<String, Value> = BTreeMap::new();
     params.insert("max_ops".into(), json!(if tier == "quick" { 40 } else { 60 }));
-    if matches!(prop, "C02" | "C11" | "C14" | "C16" | "C15") {
+    if matches!(prop, "C02" | "C11" | "C14" | "C16" | "C15" | "C18") {
         params.insert("allow_restart".into(), json!(true));
     }
     for (p, b) in &corpus.progs {
@@ -79,6 +84,7 @@ pub fn layer_a_check(prop: &str, tier: &str) -> i32 {
         "C11" => ("one case = one (program, history ending in drop / detach / restart / exit at a stop of some kind); after teardown the namespace's process table, the text and debug registers at the moment of PTRACE_DETACH, the completion of a detached process, breakpoints across restart and reported exit codes are checked; distinct = distinct canonical event log; non-trivial = at least 3 operations", vec!["c11.drop_checked", "c11.detach_checked", "c11.restart_checked", "c11.drop_in_state_stopped", "c11.drop_in_state_exited"], "exploration"),
         "C14" => ("one case = one (program, history of watchpoint add/remove by number/address interleaved with continue/finish/restart); after every operation DR0-3/DR7 of the tracee are read by the harness (PTRACE_PEEKUSER) and compared with a 4-slot model, refusals must be side-effect free; distinct = distinct canonical event log; non-trivial = at least 3 operations", vec!["c14.add_checked", "c14.dr_image_checked_nonempty", "c14.duplicate_refused", "c14.fifth_refused"], "exploration"),
         "C15" => ("one case = one (program, history) in which memory reads (any alignment, around mapping/page/word boundaries, lengths 0..3 pages), one-word writes (verified against a byte mirror of the mapping and its neighbours, then restored), register write/read-back (all other registers compared through PTRACE_GETREGS) and function disassembly with breakpoints armed inside (instruction boundaries vs llvm-objdump of the file) are interleaved with execution; distinct = distinct canonical event log; non-trivial = at least 3 operations", vec!["c15.read_ok_compared", "c15.read_fault_reported", "c15.write_ok", "c15.write_fault_reported", "c15.reg_roundtrip_ok", "c15.disasm_checked", "c15.disasm_with_breakpoints_inside"], "exploration"),
+        "C18" => ("non-PIE leg: one case = one (generated program linked as a non-PIE executable, history of add/remove/continue/step/finish ops); every oracle of C01 (stops = projection of the reference execution), C02 (text ledger) and C05 (backtrace = shadow stack) applies unchanged with load base 0; their violations count for C18 here", vec!["c01.expected_bp_stop", "c05.backtrace_checked", "c02.ledger_checked"], "exploration"),
         "C16" => ("one case = one (program, history with injected calls of 0/2/3/6-parameter functions with boundary literals and uncallable requests at random stops); registers, maps, text, position and the callee's own argument log are compared before/after; distinct = distinct canonical event log; non-trivial = at least 3 operations", vec!["c16.call_checked", "c16.call_succeeded", "c16.bad_call_checked"], "exploration"),
         _ => ("layer A run", vec![], "exploration"),
     };
@@ -298,6 +304,49 @@ pub fn session_check(prop: &str, tier: &str) -> i32 {
     orch::run_check(cfg, ws, corpus_info)
 }
 
+pub fn lib_check(prop: &str, tier: &str) -> i32 {
+    let seed = seed_from_env();
+    let (drivers, histories) = if tier == "quick" { (3, 6) } else { (8, 40) };
+    let histories = std::env::var("BSSIM_HISTORIES").ok().and_then(|s| s.parse().ok()).unwrap_or(histories);
+    let corpus = crate::libs::corpus(seed, drivers);
+    if corpus.is_empty() {
+        eprintln!("HARNESS-ERROR empty library corpus");
+        return 2;
+    }
+    let corpus_info = json!({"family": "lib (driver executable + cdylib linked at start-up + cdylib loaded/unloaded/reloaded with dlopen)", "programs": corpus.len()});
+    let dir = scratch_dir(prop);
+    let mut ws = vec![];
+    let mut idx = 0u64;
+    for (p, b, liba, libb, counts) in &corpus {
+        for _ in 0..histories {
+            let mut params: BTreeMap<String, Value> = BTreeMap::new();
+            params.insert("liba".into(), json!(liba));
+            params.insert("libb".into(), json!(libb));
+            params.insert("counts".into(), json!(counts));
+            ws.push(WorkerSpec { property: prop.into(), mode: "lib".into(), seed: rng::derive(seed, "C18.lib", idx), run_idx: 100_000 + idx, program: p.clone(), bin: b.bin.to_string_lossy().into(), src_file: b.src_file.clone(), tape: None, out: dir.join(format!("l{idx}.json")).to_string_lossy().into(), params });
+            idx += 1;
+        }
+    }
+    let cfg = CheckCfg {
+        prop: prop.into(),
+        tier: tier.into(),
+        seed,
+        mode: "lib".into(),
+        programs: corpus.len(),
+        histories,
+        det_pairs: if tier == "quick" { 12 } else { 48 },
+        timeout: Duration::from_secs(90),
+        params: BTreeMap::new(),
+        level: "exploration".into(),
+        rule: "library leg: one case = one (driver with seeded call counts into a start-up library and a dlopen/dlclose/dlopen library, user plan: which breakpoints before start (the dlopen library's as deferred), which at the first stop, finish out of library code, restart); every stop must be in the function the driver's call order says, at the real pc, inside library base (/proc/maps) + ELF symbol; the backtrace from library code must reach the driver's frames; shared_libs() must equal the file-backed executable objects of /proc/maps at every stop".into(),
+        assumptions: vec!["library bases are read from /proc/<pid>/maps, function ranges from the ELF symbol tables (independent of the debugger's DWARF reader)".into()],
+        real_stub: real_stub_core(),
+        required_probes: vec!["c18.stops_in_startup_library".into(), "c18.stops_in_dlopened_library".into(), "c18.deferred_requested".into(), "c18.sharedlib_list_checked".into(), "c18.backtrace_from_library_checked".into()],
+        budget: Duration::from_secs(600),
+    };
+    orch::run_check(cfg, ws, corpus_info)
+}
+
 /// Run two legs of one property and merge their evidence into /verif/evidence/<prop>.json.
 fn two_legs(prop: &str, tier: &str, second: fn(&str, &str) -> i32, name: &str) -> i32 {
     two_legs_of(prop, tier, layer_a_check, second, name)
@@ -335,6 +384,7 @@ pub fn check(prop: &str, tier: &str) -> i32 {
         "C09" | "C10" => layer_b_check(prop, tier),
         "C08" => two_legs_of(prop, tier, session_check, dap_check, "leg_dap"),
         "C01" | "C02" | "C03" | "C05" | "C16" => layer_a_check(prop, tier),
+        "C18" => two_legs(prop, tier, lib_check, "leg_libraries"),
         "C12" | "C13" => dap_check(prop, tier),
         _ => {
             eprintln!("no check for {prop}");
